@@ -249,6 +249,38 @@ def run(ctx):
                                      "reference": ref_text[:1500], "got": text[:1500], **pipeline.case_json(g, cfg)})
     finally:
         shutil.rmtree(tmpdir, ignore_errors=True)
+    # the TSV reader, line by line, against its model
+    if ctx.driver_ok:
+        from shexer.io.graph.yielder.tsv_nt_triples_yielder import TsvNtTriplesYielder
+        tlines = []
+        for g, cfg in cases:
+            tlines += [ln for ln in to_tsv(g).split("\n") if ln]
+        tlines = tlines[:4000]
+        mres = model.run_driver(["NT\t" + ln.replace("\t", "\\t") for ln in tlines] + ["RUN\ttsvlines\tall"]).get("all", [])
+        tdir = tempfile.mkdtemp(prefix="verif_c08t_")
+        try:
+            for ln, ml in zip(tlines, mres):
+                path = os.path.join(tdir, "l.tsv")
+                write(path, ln + "\n")
+                y = TsvNtTriplesYielder(source_file=path)
+                try:
+                    ts = list(y.yield_triples())
+                    if len(ts) == 1:
+                        s_, p_, o_ = ts[0]
+                        so = (type(s_).__name__, str(s_))
+                        oo = ('Literal', o_.elem_type) if type(o_).__name__ == 'Literal' else (type(o_).__name__, str(o_))
+                        got = "OK\t%s\t%s\t%s\t%s\t%s" % (so[0], so[1], str(p_), oo[0], oo[1])
+                    else:
+                        got = "DROPPED"
+                except Exception:
+                    got = "EXC"
+                if got != ml:
+                    dis.append({"what": "Tsv.parseLine (model) vs TsvNtTriplesYielder", "line": ln, "model": ml, "impl": got})
+                    if len(dis) > 10:
+                        break
+            stats["tsv_lines_compared"] = len(mres)
+        finally:
+            shutil.rmtree(tdir, ignore_errors=True)
     ir, d2 = base.correspondence(ctx, cases[:40])
     dis += d2
     return base.std_result(ctx, cases, viol, dis, base.known_lines(kf, hit), stats, stats["comparisons_without_tie"], [],
